@@ -56,6 +56,30 @@ pub fn ic_kind(k: Kind) -> InformationContentKind {
     }
 }
 
+/// An id group of the public API must BEHAVE like the expected set: iteration, length (no
+/// duplicates) and membership queries (`contains` relies on the group being sorted).
+fn group_diff(g: &hpo::term::HpoGroup, want: &BTreeSet<u32>) -> Option<String> {
+    let got: Vec<u32> = g.iter().map(|x| x.as_u32()).collect();
+    let gs: BTreeSet<u32> = got.iter().copied().collect();
+    if &gs != want {
+        return Some(format!("iterates {:?}, expected {:?}", got, want));
+    }
+    if got.len() != want.len() || g.len() != want.len() {
+        return Some(format!("has duplicates / wrong len(): {:?} (len {})", got, g.len()));
+    }
+    for x in want {
+        if !g.contains(&HpoTermId::from(*x)) {
+            return Some(format!("contains({x}) is false although the group iterates {:?}", got));
+        }
+        for y in [x.wrapping_sub(1), x.wrapping_add(1)] {
+            if !want.contains(&y) && g.contains(&HpoTermId::from(y)) {
+                return Some(format!("contains({y}) is true although the group iterates {:?}", got));
+            }
+        }
+    }
+    None
+}
+
 macro_rules! diff {
     ($d:expr, $($arg:tt)*) => { if $d.len() < 12 { $d.push(format!($($arg)*)); } };
 }
@@ -105,6 +129,11 @@ pub fn compare(ont: &Ontology, exp: &Expected, focus: &[Focus]) -> Vec<String> {
             }
             if term.all_parent_ids().len() != a.len() {
                 diff!(d, "term {id}: all_parent_ids contains duplicates");
+            }
+            for (what, g, want) in [("parent_ids", term.parent_ids(), &et.parents), ("children_ids", term.children_ids(), &et.children), ("all_parent_ids", term.all_parent_ids(), &et.allp)] {
+                if let Some(e) = group_diff(g, want) {
+                    diff!(d, "term {id}: {what} {e}");
+                }
             }
             // resolving iterators
             match catch(|| {
@@ -237,6 +266,16 @@ pub fn compare(ont: &Ontology, exp: &Expected, focus: &[Focus]) -> Vec<String> {
         }
         for k in KINDS {
             for (x, er) in &exp.recs[k as usize] {
+                let grp: Option<&hpo::term::HpoGroup> = match k {
+                    Kind::Gene => ont.gene(&GeneId::from(*x)).map(|g| g.hpo_terms()),
+                    Kind::Omim => ont.omim_disease(&OmimDiseaseId::from(*x)).map(|g| g.hpo_terms()),
+                    Kind::Orpha => ont.orpha_disease(&OrphaDiseaseId::from(*x)).map(|g| g.hpo_terms()),
+                };
+                if let Some(g) = grp {
+                    if let Some(e) = group_diff(g, &er.hpos) {
+                        diff!(d, "{} {x}: hpo_terms {e}", k.name());
+                    }
+                }
                 let got: Option<(u32, String, BTreeSet<u32>)> = match k {
                     Kind::Gene => ont.gene(&GeneId::from(*x)).map(|g| (g.id().as_u32(), g.name().to_string(), ids(g.hpo_terms()))),
                     Kind::Omim => ont.omim_disease(&OmimDiseaseId::from(*x)).map(|g| (g.id().as_u32(), g.name().to_string(), ids(g.hpo_terms()))),
